@@ -1,6 +1,6 @@
 (* Props/C18.v — CSV / pandas export writes exactly the selected rows and columns.
    Statements only; proofs are in coq/Proofs/ToCsv*.v.  V_fix is the code after the repairs
-   work/C18/fix-F-C18{a,b,c,d}.diff; V_orig the code before them (refutation theorems). *)
+   work/C18/fix-F-C18{a,b,c,d,g}.diff; V_orig the code before them (refutation theorems). *)
 From Coq Require Import ZArith List Bool.
 From EV Require Import Res Arr ToCsv ToCsvSpec ToCsvParse ToCsvLoop ToCsvTop ToCsvRound.
 Import ListNotations.
@@ -93,7 +93,7 @@ Example to_pandas_correct_hyp :
   to_pandas V_fix fr (Some [false; true]) (CF_list [[115]; [97]]) = Ok [([115], [CStr []]); ([97], [CInt 2])].
 Proof. vm_compute. split; reflexivity. Qed.
 
-(* 7. the code before the repairs does NOT meet the specification (findings F-C18a..d) *)
+(* 7. the code before the repairs does NOT meet the specification (findings F-C18a..d, g) *)
 (* F-C18a: a cell holding a lone CR is written bare and parsed back as two records *)
 Theorem to_csv_orig_parse_refuted : exists fr file,
   to_csv 2 V_orig fr RF_none CF_none 1 = Ok file /\ csv_parse file <> spec_table fr RF_none CF_none.
@@ -106,7 +106,7 @@ Print Assumptions to_csv_orig_parse_refuted.
 (* F-C18b: no column left to write (the filter field was the only column): IndexError *)
 Theorem to_csv_orig_zero_columns_refuted : exists fr rf,
   cf_valid fr CF_none = true /\ to_csv 2 V_orig fr rf CF_none 2 = Raise E_IndexError.
-Proof. exists [([102], [CLit [84]; CLit [70]])], (RF_field [102] [true; false]). vm_compute. auto. Qed.
+Proof. exists [([102], [CLit [84]; CLit [70]])], (RF_field true [102] [true; false]). vm_compute. auto. Qed.
 Print Assumptions to_csv_orig_zero_columns_refuted.
 
 (* F-C18c: to_pandas of an empty dataframe: IndexError *)
@@ -120,3 +120,12 @@ Theorem to_csv_orig_leading_blank_bare_refuted :
   writer_row [LF] [[32; 120]] = [32; 120; 10] /\ fix_line [[32; 120]] = [34; 32; 120; 34; 10].
 Proof. vm_compute. auto. Qed.
 Print Assumptions to_csv_orig_leading_blank_bare_refuted.
+
+(* F-C18g: a filter field of ANOTHER dataframe that merely shares its name with a column removes that column *)
+Theorem to_csv_orig_foreign_filter_refuted : exists fr rf file,
+  to_csv 2 V_orig fr rf CF_none 2 = Ok file /\ csv_parse file <> spec_table fr rf CF_none.
+Proof.
+  exists [([97], [CInt 1]); ([115], [CStr [120]])], (RF_field false [97] [true]). eexists.
+  split; [vm_compute; reflexivity|]. vm_compute. discriminate.
+Qed.
+Print Assumptions to_csv_orig_foreign_filter_refuted.
